@@ -377,15 +377,15 @@ def order(fv):
     return out[::-1]
 
 
-def r194(ctx):
-    ctx.rule("R19.4", "streamed PSBT: one input and one segwit flag per iteration; flag value follows the spent output")
+def r194(ctx, rid="R19.4"):
+    ctx.rule(rid, "streamed PSBT: one input and one segwit flag per iteration; flag value follows the spent output")
     p = ctx.prog
     b = p.fn(f"<{P}psbt::StreamedPSBT as {DEC}>::consensus_decode_from_finite_reader")
     fv = fnview(ctx, b, policy=False)
     nv = fv.named()
     key = "StreamedPSBT::decode"
     loops = R.loops_over(nv, lambda s: "inputs" in s and "Enumerate" not in s or ".inputs" in s)
-    ctx.ob("R19.4", len(loops) == 1, f"{key}/input-loop", f"{len(loops)} loops over the PSBT inputs", where=f"{b.file}:{b.line}")
+    ctx.ob(rid, len(loops) == 1, f"{key}/input-loop", f"{len(loops)} loops over the PSBT inputs", where=f"{b.file}:{b.line}")
     if len(loops) != 1:
         return
     h, nc, be, ee = loops[0]
@@ -402,13 +402,13 @@ def r194(ctx):
                 flag.append((bi, c))
             elif recv == "inputs":
                 inp.append((bi, c))
-    ctx.ob("R19.4", len(inp) >= 1, f"{key}/inputs-push", "no inputs.push in the input loop", where=f"{b.file}:{nc.line}")
-    ctx.ob("R19.4", len(flag) >= 1, f"{key}/flags-push", "no segwit_flags.push in the input loop", where=f"{b.file}:{nc.line}")
+    ctx.ob(rid, len(inp) >= 1, f"{key}/inputs-push", "no inputs.push in the input loop", where=f"{b.file}:{nc.line}")
+    ctx.ob(rid, len(flag) >= 1, f"{key}/flags-push", "no segwit_flags.push in the input loop", where=f"{b.file}:{nc.line}")
     fb = {bi for bi, c in flag}
     ib = {bi for bi, c in inp}
     # every completed iteration pushes an input; every pushed input was preceded by a flag push in this iteration
     done_wo_input = any(h in fv.reach(v, cut_nodes=ib) for v in body_entries)
-    ctx.ob("R19.4", not done_wo_input, f"{key}/iteration-pushes-input", "an iteration over the inputs can complete without pushing the input",
+    ctx.ob(rid, not done_wo_input, f"{key}/iteration-pushes-input", "an iteration over the inputs can complete without pushing the input",
            where=f"{b.file}:{nc.line}", sample="iteration => inputs.push")
     for bi, c in inp:
         reach_wo_flag = any(bi in fv.reach(v, cut_nodes=fb | {h}) for v in body_entries)
@@ -418,19 +418,19 @@ def r194(ctx):
                 pth = fv.path(v, bi, cut_nodes=fb | {h})
                 if pth:
                     break
-        ctx.ob("R19.4", not reach_wo_flag, f"{key}/flag-per-input",
+        ctx.ob(rid, not reach_wo_flag, f"{key}/flag-per-input",
                "an input of the streamed PSBT is pushed without a segwit flag: the flag vector loses alignment with the inputs"
                + (f" (path lines {fv.lines_of_path(pth)})" if pth else ""),
                where=f"{b.file}:{c.line}", sample="inputs.push => exactly one segwit_flags.push before it in the iteration")
     for bi, c in flag:
         nxt = b.term(bi).targets[:1]
         again = any(fb & fv.reach(v, cut_nodes={h}) for v in nxt)
-        ctx.ob("R19.4", not again, f"{key}/one-flag-per-iteration", "two segwit flags can be pushed in one iteration",
+        ctx.ob(rid, not again, f"{key}/one-flag-per-iteration", "two segwit flags can be pushed in one iteration",
                where=f"{b.file}:{c.line}", sample="at most one flag per iteration")
     for bi, c in inp:
         nxt = b.term(bi).targets[:1]
         again = any(ib & fv.reach(v, cut_nodes={h}) for v in nxt)
-        ctx.ob("R19.4", not again, f"{key}/one-input-per-iteration", "an input can be pushed twice in one iteration", where=f"{b.file}:{c.line}")
+        ctx.ob(rid, not again, f"{key}/one-input-per-iteration", "an input can be pushed twice in one iteration", where=f"{b.file}:{c.line}")
     # flag value: true only if the *proven* spent output (output[prevout.vout] of the streamed previous tx) is a
     # witness program; an input that came without a previous transaction gets false
     def proven(e):
@@ -441,7 +441,7 @@ def r194(ctx):
     const_pushes = [(bi, c) for bi, c in flag if render(fv.expr(c.args[1])) in ("true", "false")]
     for wbi, wc in wit:
         oexpr = fv.expr(wc.args[0])
-        ctx.ob("R19.4", proven(oexpr), f"{key}/witness-test-output",
+        ctx.ob(rid, proven(oexpr), f"{key}/witness-test-output",
                f"witness test subject is `{render(oexpr)[:160]}`, not the output of the streamed previous transaction selected by "
                f"the input's outpoint index", where=f"{b.file}:{wc.line}", sample="input_tx.output[prevout.vout].script_pubkey")
     te = set()
@@ -453,29 +453,29 @@ def r194(ctx):
         rv_ = render(v)
         if rv_ == "true":
             ok = bool(te) and bi not in fv.reach(0, cut_edges=te)
-            ctx.ob("R19.4", ok, f"{key}/true-only-if-witness", "segwit flag `true` is pushed on a path where the proven spent output is not known to be a witness program",
+            ctx.ob(rid, ok, f"{key}/true-only-if-witness", "segwit flag `true` is pushed on a path where the proven spent output is not known to be a witness program",
                    where=f"{b.file}:{c.line}", sample="push(true) dominated by is_witness_program(proven output) == true")
         elif rv_ == "false":
             ok = True
             for (u, t) in te:
                 if bi in fv.reach(t, cut_nodes={h}):
                     ok = False
-            ctx.ob("R19.4", ok, f"{key}/false-not-if-witness", "segwit flag `false` is pushed although the spent output is a witness program",
+            ctx.ob(rid, ok, f"{key}/false-not-if-witness", "segwit flag `false` is pushed although the spent output is a witness program",
                    where=f"{b.file}:{c.line}", sample="push(false) unreachable from is_witness_program == true within the iteration")
         else:
             inner = strip_ref(v)
             ok = inner[0] == "call" and inner[1].endswith("Script::is_witness_program") and proven(inner[2][0])
-            ctx.ob("R19.4", ok, f"{key}/flag-value",
+            ctx.ob(rid, ok, f"{key}/flag-value",
                    f"segwit flag value `{rv_[:140]}` is not the witness test of the proven spent output (the output of the streamed "
                    f"previous transaction): a flag derived from anything else, e.g. the sender-supplied witness_utxo, is an unproven claim",
                    where=f"{b.file}:{c.line}", sample=rv_[:80])
     # previous tx accepted only if txid matches and the output index exists (refusal scenarios)
     eqs = R.eq_sites(nv, lambda x, y: "compute_txid" in x and "previous_output.txid" in y)
-    ctx.ob("R19.4", len(eqs) >= 1, f"{key}/txid-compared", "the streamed previous transaction's txid is not compared with the input's outpoint",
+    ctx.ob(rid, len(eqs) >= 1, f"{key}/txid-compared", "the streamed previous transaction's txid is not compared with the input's outpoint",
            where=f"{b.file}:{nc.line}", sample=f"{len(eqs)} comparison(s)")
     for cbi, line, eqe, dife, r0, r1 in eqs:
         bad = [bi for bi, c in inp if any(bi in fv.reach(v, cut_nodes={h}) for (_, v) in dife)]
-        ctx.ob("R19.4", bool(dife) and not bad, f"{key}/txid-mismatch-refused",
+        ctx.ob(rid, bool(dife) and not bad, f"{key}/txid-mismatch-refused",
                "an input is accepted although the streamed previous transaction's txid differs from the input's outpoint",
                where=f"{b.file}:{line}", sample=f"{r0[:50]} != {r1[:50]} => input not pushed")
     # the struct literal takes the flags vector built in the loop
@@ -485,12 +485,12 @@ def r194(ctx):
             n += 1
             vals = dict(zip(s.rv.a[3], s.rv.ops))
             e = render(strip_ref(nv.expr(vals["segwit_flags"])))
-            ctx.ob("R19.4", e == "segwit_flags", f"{key}/result-flags", f"decoded segwit_flags is `{e[:60]}`", where=f"{b.file}:{s.line}")
-    ctx.floor("R19.4", "StreamedPSBT literal in decoder", n, 1)
+            ctx.ob(rid, e == "segwit_flags", f"{key}/result-flags", f"decoded segwit_flags is `{e[:60]}`", where=f"{b.file}:{s.line}")
+    ctx.floor(rid, "StreamedPSBT literal in decoder", n, 1)
     # encoder writes the wrapped psbt only
     eb = p.fn(f"<{P}psbt::StreamedPSBT as {ENC}>::consensus_encode")
     ev = fnview(ctx, eb, policy=False)
     enc = [c for bi, c in eb.calls() if c.callee and "consensus_encode" in c.callee.name]
     ok = len(enc) == 1 and "psbt" in render(ev.expr(enc[0].args[0]))
-    ctx.ob("R19.4", ok, "StreamedPSBT::encode/writes-psbt", "StreamedPSBT encoder does not write exactly the wrapped PSBT", where=f"{eb.file}:{eb.line}",
+    ctx.ob(rid, ok, "StreamedPSBT::encode/writes-psbt", "StreamedPSBT encoder does not write exactly the wrapped PSBT", where=f"{eb.file}:{eb.line}",
            sample="self.psbt.consensus_encode(writer)")
